@@ -308,3 +308,13 @@ Proof.
   - replace ((1 - u) * ((1 - 5 / 2 * u) * p)) with (p - 7 / 2 * (u * p) + 5 / 2 * (u * (u * p))) by field. lra.
   - replace ((1 + u) * ((1 + 5 / 2 * u) * p)) with (p + 7 / 2 * (u * p) + 5 / 2 * (u * (u * p))) by field. lra.
 Qed.
+
+(** the decoded offset is never negative (uint64 seconds, uint32 nanoseconds) *)
+Lemma dec_offset_nonneg ipd k : (0 <= dec_offset ipd k)%Z.
+Proof.
+  unfold dec_offset, dec.
+  destruct (f64_ge _ _);
+  match goal with |- (0 <= wrap U64 ?a * _ + wrap U32 ?b)%Z =>
+    pose proof (wrap_range U64 a) as R1; pose proof (wrap_range U32 b) as R2 end;
+  unfold in_ity, ity_min, ity_max in R1, R2; cbn [ity_signed ity_bits] in R1, R2; lia.
+Qed.
